@@ -100,3 +100,10 @@ def describe(cases, obs):
         pred = py_fn(c['pred'])
         r1 += sum(1 for lt in muxprop.lifetime_positions(c['trace']) for s in runs_of(pred, lt['items']) if len(s) == 1)
     return {'predicates': ph, 'contexts': ctx, 'runs_of_length_1': r1, 'operator_histogram': muxprop.op_histogram(cases)}
+
+
+CLAIM = {
+    'text': "Theorems (Coq): split's slot-level machine refines its per-key machine over any refined inner machine; every segment is processed by a fresh inner machine, outputs concatenated in segment order, last segment closed at completion, no segment for an empty key; the segments are `runs`: concat runs = xs, every run non-empty with == predicate values, adjacent runs have different values (maximal). Predicate values compared by the canonical serialisation of Python == (tied by correspondence with equal-not-identical values); oracle: maximal runs computed in Python from an inner tap.",
+    'note': 'Trusted: Coq kernel+VM; hand-written model; Python == model (canon).',
+    'technique': 'Coq proof (forward-simulation refinement of a slot-level model by per-key local machines, list-level induction) + vm_compute correspondence against /repo + model-free oracle',
+}
